@@ -2057,6 +2057,10 @@ func main() {
 		// a sessions part whose builds never met would have observed nothing about concurrency
 		res.Floor("session_builds_overlapping_another_sessions_build", over, sGroups*sSess*sRounds/4)
 		res.Floor("session_commands_applied", ncmd, sGroups*sSess*sRounds)
+		// the case-folding monitors need names with letters of both cases
+		res.Count("filter_probes_mixed_case", 0)
+		mixed, _ := res.Extra["filter_probes_mixed_case"].(int)
+		res.Floor("filter_probes_mixed_case", mixed, 10*n)
 	}
 	res.Floor("expand_strings", expandDone, nStrings)
 	if _, ns := mon.Shard(); ns == 1 {
